@@ -23,3 +23,14 @@ CHECKS = {
   "note": "Denotation of Period(s) triggers is defined for periods/delays that are multiples of the bar interval; trusts the integer bar-grid computation (also checked against the visited bars).",
  },
 }
+
+CHECKS["C10"] = {
+  "technique": "Hypothesis generated operation histories (programs as data with run-time selectors) on the real AaveV3Market against an exact rational ledger; split/merge metamorphic re-run",
+  "text": "Generated index paths (flat / tiny / small / 8% steps, equal and unequal across 2-4 tokens, 1-10 bars) x interleavings of supply / withdraw / borrow / repay (cash, same-token and other-token collateral) with amounts 0, dust, fractions, exactly all, a hair above, 10x, None; after every step each supplied and owed amount is compared with a Fraction ledger (stated amount moved, x index ratio per bar) at 4e-18 x index + 1e-28 relative, wallet deltas and the recorded action amount with the stated amount, and entry removal on full repay / withdraw; each history is re-run with one accepted operation split in two and the end states compared at 3e-18. Sampled exploration of an unbounded history space.",
+  "note": "The ledger is re-synchronised after a liquidation (C12's subject). Trusts fractions.Fraction and the generated rows; negative amounts are outside the domain.",
+}
+CHECKS["C13"] = {
+  "technique": "Hypothesis generated interleavings of reads and writes on the real AaveV3Market; after every step every derived view is compared with a from-scratch Fraction recomputation",
+  "text": "Generated histories of supply / withdraw / borrow / repay / collateral-flag changes / reads of a random derived view / new bars / end-of-bar liquidations, accepted and rejected; after every step supplies, borrows (amounts, values, flags, apy), per-token and total supply / collateral / debt values, health factor, LTV, max LTV, liquidation threshold, APYs and get_market_balance() are compared with a recomputation from the raw positions, the bar's indices and prices (1e-25 relative, 0.51e-4 where the code quantises). Sampled exploration.",
+  "note": "Trusts the raw containers _supplies/_borrows as ground truth and a 60-digit Decimal evaluation of (1+r/N)^N for APYs.",
+}
